@@ -256,8 +256,79 @@ out(cases=count, failing=bad)
 '''
 
 
+HISTORY = r'''
+import itertools
+from pymemcache.fallback import FallbackClient
+log = []
+class Cache:
+    """a tiny in-memory cache with cas tokens; logs every call"""
+    def __init__(self, idx, data): self.idx, self.data = idx, dict(data)
+    def get(self, key, default=None): log.append((self.idx, "get")); return self.data.get(key, default)
+    def gets(self, key, default=None, cas_default=None):
+        log.append((self.idx, "gets")); return (self.data[key], b"%d" % (self.idx + 1)) if key in self.data else (default, cas_default)
+    def get_many(self, keys): log.append((self.idx, "get_many")); return {k: self.data[k] for k in keys if k in self.data}
+    def gets_many(self, keys): log.append((self.idx, "gets_many")); return {k: (self.data[k], b"1") for k in keys if k in self.data}
+    def set(self, key, value, *a, **kw): log.append((self.idx, "set")); self.data[key] = value; return True
+    def add(self, key, value, *a, **kw): log.append((self.idx, "add")); return self.data.setdefault(key, value) is value
+    def replace(self, key, value, *a, **kw): log.append((self.idx, "replace")); return True
+    def append(self, key, value, *a, **kw): log.append((self.idx, "append")); return True
+    def prepend(self, key, value, *a, **kw): log.append((self.idx, "prepend")); return True
+    def cas(self, key, value, cas, *a, **kw): log.append((self.idx, "cas")); return True
+    def delete(self, key, *a, **kw): log.append((self.idx, "delete")); return self.data.pop(key, None) is not None
+    def incr(self, key, value, *a, **kw): log.append((self.idx, "incr")); return 1
+    def decr(self, key, value, *a, **kw): log.append((self.idx, "decr")); return 1
+    def touch(self, key, *a, **kw): log.append((self.idx, "touch")); return True
+    def set_many(self, values, *a, **kw): log.append((self.idx, "set_many")); self.data.update(values); return []
+    def delete_many(self, keys, *a, **kw): log.append((self.idx, "delete_many")); return True
+    def flush_all(self, *a, **kw): log.append((self.idx, "flush_all")); return True
+READS = {"get": lambda f: f.get("k"), "gets": lambda f: f.gets("k"), "get_many": lambda f: f.get_many(["k"]), "gets_many": lambda f: f.gets_many(["k"])}
+WRITES = {"set": lambda f: f.set("k", "v"), "add": lambda f: f.add("k", "v"), "replace": lambda f: f.replace("k", "v"), "append": lambda f: f.append("k", "v"),
+          "prepend": lambda f: f.prepend("k", "v"), "cas": lambda f: f.cas("k", "v", b"2"), "delete": lambda f: f.delete("k"), "incr": lambda f: f.incr("k", 1),
+          "decr": lambda f: f.decr("k", 1), "touch": lambda f: f.touch("k"), "set_many": lambda f: f.set_many({"k": "v"}), "delete_many": lambda f: f.delete_many(["k"]),
+          "flush_all": lambda f: f.flush_all()}
+WRITES = {n: op for n, op in WRITES.items() if hasattr(FallbackClient, n)}
+bad = None; cnt = 0
+for n in (2, 3):
+    for where in itertools.product([False, True], repeat=n):                  # which caches hold the key
+        for seq in itertools.product(list(READS) + list(WRITES), repeat=3):
+            caches = [Cache(i, {"k": ("v", i)} if w else {}) for i, w in enumerate(where)]
+            fc = FallbackClient(caches)
+            cnt += 1
+            for name in seq:
+                del log[:]
+                holders = [i for i, c in enumerate(caches) if "k" in c.data]
+                (READS.get(name) or WRITES[name])(fc)
+                if name in WRITES:
+                    ok = [x[0] for x in log] == [0] and log[0][1] == name
+                    want = "exactly one %s on cache 0" % name
+                else:
+                    last = (holders[0] if holders else n - 1)
+                    ok = [x[0] for x in log] == list(range(last + 1))
+                    want = "caches 0..%d consulted in order, none after the one that answered" % last
+                if not ok:
+                    bad = dict(caches_holding_the_key=list(where), history=list(seq), at=name, observed_calls=repr(log), expected=want); break
+            if bad: break
+        if bad: break
+    if bad: break
+out(cases=cnt, failing=bad)
+'''
+REPLAY_OUT_OF_REACH = True
+
+
 def replay(ob, res):
     from pyvc import replay as rp
+    if "out-of-reach" in ob.id or "bounded-exploration" in ob.id:
+        from pyvc.replay import failing_of
+        total = 0
+        for meth in list(READS) + list(WRITES):
+            obs = rp.run_real(SNIPPET, {"method": meth})
+            total += obs.get("cases") or 0
+            if failing_of(obs):
+                return {"reproduced": True, "call": "FallbackClient(caches).%s(...)" % meth, "input": failing_of(obs)}
+        obs = rp.run_real(HISTORY, {}, timeout=600)
+        if failing_of(obs):
+            return {"reproduced": True, "call": "three-operation histories on a FallbackClient over logging caches", "input": failing_of(obs)}
+        return {"reproduced": False, "searched": {"cases": total + (obs.get("cases") or 0), "failing": None}}
     meth = ob.meta.get("method") or (ob.func or "").split(".")[-1]
     if meth not in READS and meth not in WRITES:
         return {"reproduced": False}
